@@ -25,5 +25,5 @@ InvHijackExact    == HijackExact(req, O(req))
 InvNeverLeaks     == HijackPath(req) /\ Hijacked(req) => NeverLeaks(req, O(req))
 InvErrorMeansNoOp == HijackPath(req) /\ Hijacked(req) => ErrorMeansNoOp(req, O(req))
 InvFaithful       == HijackPath(req) /\ Hijacked(req) => Faithful(req, O(req))
-InvRelayIdentity  == ~Hijacked(req) => Relayed(req, O(req))
+InvRelayIdentity  == ~Hijacked(req) => IF Reachable(req) THEN Relayed(req, O(req)) ELSE RelayDown(req, O(req))
 =============================================================================
